@@ -1,3 +1,3 @@
-(* _client.py :: ncrypt_unprotect_secret :: ('callarg', '_sync_get_key', 0, 1) :  target_sd *)
+(* _client.py :: ncrypt_unprotect_secret :: shape kernel :  _sync_get_key(... 1: target_sd  [= DPAPINGBlob.unpack(data).protection_descriptor.get_target_sd()] ...) *)
 Definition k_onl_unprot_arg1 (target_sd : list Z) : list Z :=
   target_sd.
